@@ -6,11 +6,13 @@ from harness.core import Result
 
 MANIFEST = dict(
     design_ref="DESIGN.md §6 Group O / C05",
-    text="Coq theorems C05_callback_needs_lock_and_membership, C05_removed_until_readded (ghost-log form: no callback for (h,w) "
-         "after the Return of unschedule/remove_handler_for_watch/unschedule_all/stop unless a later registration of (h,w)), "
-         "C05_emitter_joined (after unschedule's normal Return the emitter thread of the watch has exited or was never started) "
-         "over every label list of the observer LTS, re-entrant removals included; tied to /repo by lock-step replay of real "
-         "BaseObserver runs; the property text is evaluated on the same runs from logical time stamps.",
+    text="Coq theorems over every label list of the observer LTS: C05_full (Return-label form: a callback (h,w,_) after the "
+         "non-raised Return of remove_handler_for_watch/unschedule/unschedule_all/stop occurs only if (h,w) was registered again "
+         "after the call's removal event, which lies between the call's begin and its Return), C05_no_callback_after_removal, "
+         "C05_registry_access_under_lock / C05_callback_under_lock (LockInv), C05_unschedule_joins, C05_join_means_exited, "
+         "C05_exited_emitter_silent; re-entrant removals included. Emitter half in Return-label form (C05_emitter_full) is a "
+         "Definition: not proved that a removed, never started emitter is never started later. Tied to /repo by lock-step replay "
+         "of real BaseObserver runs; the property text is evaluated on the same runs from logical time stamps.",
     note="Trusted: Coq kernel; scheduler twins for threading/queue; interleavings sampled (exhaustive under 2 pre-emptions in thorough).",
     technique="Coq proof (inductive invariants of an LTS) + lock-step correspondence + log-based oracle",
 )
